@@ -11,6 +11,8 @@
 //   tt  A A A A                     tuple<dyn,dyn> vs tuple<dyn,dyn>
 //   tm  M I M I                     tuple<maybe<dyn>,scalar> vs same
 //   mt  M I M I                     maybe<tuple<dyn,scalar>> (empty when M = N) vs same
+// Layout suffix on the forms with "A:" operands other than aa:  <form>.rc / .cr / .cc  = the arrays of the first / second
+// operand are row-major (r) or column-major (c) ndarray_t objects holding the SAME logical content; aa has the kind "col".
 // Result: "ok 1" / "ok 0"; "unsupported" = the pairing is rejected at compile time (guarded here).
 #include "nmtools/utility/isequal.hpp"
 #include "nmtools/utility/isclose.hpp"
@@ -43,8 +45,8 @@ template <bool CL> struct Mode {
     }
 };
 
-template <typename T> static dyn_t<T> mk(const std::vector<ll>& shape, const std::vector<ll>& data, bool cl) {
-    dyn_t<T> a; std::vector<size_t> shp(shape.begin(), shape.end()); a.resize(shp);
+template <typename T, typename A = dyn_t<T>> static A mk(const std::vector<ll>& shape, const std::vector<ll>& data, bool cl) {
+    A a; std::vector<size_t> shp(shape.begin(), shape.end()); a.resize(shp);
     std::vector<size_t> idx(shp.size(), 0); size_t n = 1; for (auto e : shp) n *= e;
     for (size_t c = 0; c < n; c++) {
         a(idx) = cl ? (T)((double)data[c] / 4.0) : (T)data[c];
@@ -52,11 +54,13 @@ template <typename T> static dyn_t<T> mk(const std::vector<ll>& shape, const std
     }
     return a;
 }
-template <typename T> static dyn_t<T> mk(const Arg& a, bool cl) { return mk<T>(a.shape, a.list, cl); }
+template <typename T, typename A = dyn_t<T>> static A mk(const Arg& a, bool cl) { return mk<T, A>(a.shape, a.list, cl); }
 
 template <typename T, typename F>
 static std::string with_arr(const std::string& kind, const Arg& a, bool cl, F&& f) {
     if (kind == "dyn") return f(mk<T>(a, cl));
+    if (kind == "col") return f(mk<T, dyn_col_t<T>>(a, cl));      // column-major buffer, same logical content
+    if (kind == "cref") { auto base = mk<T, dyn_col_t<T>>(a, cl); return f(view::ref(base)); }
     if (kind == "ref") { auto base = mk<T>(a, cl); return f(view::ref(base)); }
     if (kind == "rsh") {
         auto flat = mk<T>(std::vector<ll>{(ll)a.list.size()}, a.list, cl);
@@ -103,16 +107,20 @@ template <typename A, typename B> constexpr bool packed_mismatch() {
     else return false;
 }
 
-template <bool CL>
+template <bool CL, bool C1, bool C2>
 static std::string run(const Case& c, const std::string& form) {
     Mode<CL> m; using T = typename Mode<CL>::elem_t;
+    using A1 = std::conditional_t<C1, dyn_col_t<T>, dyn_t<T>>; using A2 = std::conditional_t<C2, dyn_col_t<T>, dyn_t<T>>;
     auto& a = c.args;
     if (CL) m.eps = (double)a.back().val / 4.0;
     auto kind = [&](size_t i) { return a[i].raw.substr(2); };
-    using M = nmtools_maybe<dyn_t<T>>;
-    using E = nmtools_either<dyn_t<T>, T>;
-    auto mkM = [&](const Arg& x) -> M { if (x.kind == 'N') return M{meta::Nothing}; return M{mk<T>(x, CL)}; };
-    auto mkE = [&](const Arg& x) -> E { if (x.kind == 'I') return E{Mode<CL>::conv(x.val)}; return E{mk<T>(x, CL)}; };
+    using M1 = nmtools_maybe<A1>; using M2 = nmtools_maybe<A2>;
+    using E1 = nmtools_either<A1, T>; using E2 = nmtools_either<A2, T>;
+    auto mkM1 = [&](const Arg& x) -> M1 { if (x.kind == 'N') return M1{meta::Nothing}; return M1{mk<T, A1>(x, CL)}; };
+    auto mkM2 = [&](const Arg& x) -> M2 { if (x.kind == 'N') return M2{meta::Nothing}; return M2{mk<T, A2>(x, CL)}; };
+    auto mkE1 = [&](const Arg& x) -> E1 { if (x.kind == 'I') return E1{Mode<CL>::conv(x.val)}; return E1{mk<T, A1>(x, CL)}; };
+    auto mkE2 = [&](const Arg& x) -> E2 { if (x.kind == 'I') return E2{Mode<CL>::conv(x.val)}; return E2{mk<T, A2>(x, CL)}; };
+    if constexpr (!C1 && !C2) {
     if (form == "nn") {
         if constexpr (CL) return m.cmp(Mode<CL>::conv(a[0].val), (float)Mode<CL>::conv(a[1].val));
         else return m.cmp((int)a[0].val, (long)a[1].val);
@@ -144,58 +152,64 @@ static std::string run(const Case& c, const std::string& form) {
             });
         });
     }
+    }   // layout-free forms
     if (form == "ia") {
-        auto y = mk<T>(a[2], CL);
+        auto y = mk<T, A2>(a[2], CL);
         return with_idx(kind(0), a[1].list, [&](const auto& x) -> std::string {
             if constexpr (meta::is_ndarray_v<std::decay_t<decltype(x)>>) return m.cmp(x, y); else return "unsupported";
         });
     }
     if (form == "ai") {
-        auto x = mk<T>(a[1], CL);
+        auto x = mk<T, A1>(a[1], CL);
         return with_idx(kind(0), a[2].list, [&](const auto& y) -> std::string {
             if constexpr (meta::is_ndarray_v<std::decay_t<decltype(y)>>) return m.cmp(x, y); else return "unsupported";
         });
     }
-    if (form == "mm") return m.cmp(mkM(a[0]), mkM(a[1]));
-    if (form == "ma") return m.cmp(mkM(a[0]), mk<T>(a[1], CL));
-    if (form == "am") return m.cmp(mk<T>(a[0], CL), mkM(a[1]));
-    if (form == "ee") return m.cmp(mkE(a[0]), mkE(a[1]));
-    if (form == "ea") return m.cmp(mkE(a[0]), mk<T>(a[1], CL));
-    if (form == "ae") return m.cmp(mk<T>(a[0], CL), mkE(a[1]));
-    if (form == "en") return m.cmp(mkE(a[0]), Mode<CL>::conv(a[1].val));
-    if (form == "ne") return m.cmp(Mode<CL>::conv(a[0].val), mkE(a[1]));
+    if (form == "mm") return m.cmp(mkM1(a[0]), mkM2(a[1]));
+    if (form == "ma") return m.cmp(mkM1(a[0]), mk<T, A2>(a[1], CL));
+    if (form == "am") return m.cmp(mk<T, A1>(a[0], CL), mkM2(a[1]));
+    if (form == "ee") return m.cmp(mkE1(a[0]), mkE2(a[1]));
+    if (form == "ea") return m.cmp(mkE1(a[0]), mk<T, A2>(a[1], CL));
+    if (form == "ae") return m.cmp(mk<T, A1>(a[0], CL), mkE2(a[1]));
+    if (form == "en") return m.cmp(mkE1(a[0]), Mode<CL>::conv(a[1].val));
+    if (form == "ne") return m.cmp(Mode<CL>::conv(a[0].val), mkE2(a[1]));
     if (form == "tt") {
-        auto x = nmtools_tuple{mk<T>(a[0], CL), mk<T>(a[1], CL)};
-        auto y = nmtools_tuple{mk<T>(a[2], CL), mk<T>(a[3], CL)};
+        auto x = nmtools_tuple{mk<T, A1>(a[0], CL), mk<T, A1>(a[1], CL)};
+        auto y = nmtools_tuple{mk<T, A2>(a[2], CL), mk<T, A2>(a[3], CL)};
         return m.cmp(x, y);
     }
     if (form == "tm") {
-        if constexpr (!CL) {   // isclose has no maybe arm for tuple components inside the packed loop? it has: detail handles maybe
-            auto x = nmtools_tuple{mkM(a[0]), Mode<CL>::conv(a[1].val)};
-            auto y = nmtools_tuple{mkM(a[2]), Mode<CL>::conv(a[3].val)};
-            return m.cmp(x, y);
-        } else {
-            auto x = nmtools_tuple{mkM(a[0]), Mode<CL>::conv(a[1].val)};
-            auto y = nmtools_tuple{mkM(a[2]), Mode<CL>::conv(a[3].val)};
-            return m.cmp(x, y);
-        }
+        auto x = nmtools_tuple{mkM1(a[0]), Mode<CL>::conv(a[1].val)};
+        auto y = nmtools_tuple{mkM2(a[2]), Mode<CL>::conv(a[3].val)};
+        return m.cmp(x, y);
     }
     if (form == "mt") {
         if constexpr (!CL) {
-            using TP = nmtools_tuple<dyn_t<T>, T>;
-            using MT = nmtools_maybe<TP>;
-            auto mkMT = [&](const Arg& p, const Arg& q) -> MT { if (p.kind == 'N') return MT{meta::Nothing}; return MT{TP{mk<T>(p, CL), Mode<CL>::conv(q.val)}}; };
-            return m.cmp(mkMT(a[0], a[1]), mkMT(a[2], a[3]));
+            using TP1 = nmtools_tuple<A1, T>; using TP2 = nmtools_tuple<A2, T>;
+            using MT1 = nmtools_maybe<TP1>; using MT2 = nmtools_maybe<TP2>;
+            auto mk1 = [&](const Arg& p, const Arg& q) -> MT1 { if (p.kind == 'N') return MT1{meta::Nothing}; return MT1{TP1{mk<T, A1>(p, CL), Mode<CL>::conv(q.val)}}; };
+            auto mk2 = [&](const Arg& p, const Arg& q) -> MT2 { if (p.kind == 'N') return MT2{meta::Nothing}; return MT2{TP2{mk<T, A2>(p, CL), Mode<CL>::conv(q.val)}}; };
+            return m.cmp(mk1(a[0], a[1]), mk2(a[2], a[3]));
         } else return "unsupported";   // detail::isclose has no tuple arm: maybe<tuple> is ISCLOSE_UNSUPPORTED
     }
     return "unsupported";
 }
 
+template <bool CL>
+static std::string run_layout(const Case& c, const std::string& form, const std::string& lay) {
+    if (lay == "" || lay == "rr") return run<CL, false, false>(c, form);
+    if (lay == "rc") return run<CL, false, true>(c, form);
+    if (lay == "cr") return run<CL, true, false>(c, form);
+    if (lay == "cc") return run<CL, true, true>(c, form);
+    return "unsupported";
+}
+
 static std::string handle(const Case& c) {
     auto us = c.op.find('_'); if (us == std::string::npos) return "unsupported";
-    std::string pre = c.op.substr(0, us), form = c.op.substr(us + 1);
-    if (pre == "eq") return run<false>(c, form);
-    if (pre == "cl") return run<true>(c, form);
+    std::string pre = c.op.substr(0, us), form = c.op.substr(us + 1), lay;
+    auto dot = form.find('.'); if (dot != std::string::npos) { lay = form.substr(dot + 1); form = form.substr(0, dot); }
+    if (pre == "eq") return run_layout<false>(c, form, lay);
+    if (pre == "cl") return run_layout<true>(c, form, lay);
     return "unsupported";
 }
 
